@@ -181,7 +181,7 @@ pub fn call(config: &vh::Config, code: &str, file: &str, fs: &FsSpec, plan: &Fau
 /// the nested rewrite a re-entering reader performs (`FaultPlan::reenter`): another file, another instance
 pub fn nested_rewrite(fs: &FsSpec) {
     if let Ok(ic) = make_config(&tracer_like_cfg(Some("inner"), true, true, "DEBUG", true), 7) {
-        let _ = call(&ic, "function inner(a, b) { return a + b.trim(); }\n//# sourceMappingURL=inner.js.map\n", "/abs/inner/x.js", fs, &FaultPlan::clean());
+        let _ = call(&ic, "function inner(a, b) { return a + b.trim() + 'k-0123456789abcdef literal of the nested file'; }\n//# sourceMappingURL=inner.js.map\n", "/abs/inner/x.js", fs, &FaultPlan::clean());
     }
 }
 
